@@ -64,8 +64,9 @@ def run_one(m, repo):
 def main(args):
     muts = load()
     if args.only:
-        muts = [m for m in muts if args.only in m['id'] or
-                args.only in str(m['prop'])]
+        pats = [x for x in args.only.split(',') if x]
+        muts = [m for m in muts if any(x in m['id'] or x in str(m['prop'])
+                                       for x in pats)]
     res = []
     with ThreadPoolExecutor(max_workers=args.jobs) as ex:
         for m, st, info in ex.map(lambda m: run_one(m, args.repo), muts):
